@@ -154,7 +154,8 @@ def Cmd.removes : Cmd → St → List Name
   | .dumpdb, _ => []
   | .tabcompletion, _ => []
 
-/-- does the command create a `Dependency` object at all (`DoitCmdBase` with a use of `dep_manager`) -/
+/-- does the command read or write any record through its `dep_manager` (every `DoitCmdBase` command *creates* a
+    `Dependency` object -- which may create an empty DB file --, only these use it) -/
 def Cmd.opensDb : Cmd → Bool
   | .list status _ => status
   | .info _ hide => !hide
